@@ -624,6 +624,12 @@ func gen(c *lib.Ctx, rng *rand.Rand) []c08case {
 		{"stoprel_-20", "testpic_2s/Manifest.mpd", "100000", "", ""},
 		{"startrel_-20/stoprel_20", "testpic_2s/Manifest.mpd", "100000", "", ""},
 		{"start_50/stop_60", "testpic_2s/Manifest.mpd", "100000", "", ""},
+		{"start_1000/stop_900/periods_60", "testpic_2s/Manifest.mpd", "2000000", "4xx", "stop before start"},
+		{"start_1000/stop_0/periods_60", "testpic_2s/Manifest.mpd", "2000000", "4xx", "stop before start"},
+		{"start_1000/stop_0/periods_60/segtimeline_1", "testpic_2s/Manifest.mpd", "2000000", "4xx", "stop before start"},
+		{"start_1000/stop_900", "testpic_2s/Manifest.mpd", "2000000", "4xx", "stop before start"},
+		{"start_1000/stop_1000/periods_60", "testpic_2s/Manifest.mpd", "2000000", "", ""},
+		{"startrel_-10/stoprel_-20/periods_60", "testpic_2s/Manifest.mpd", "2000000", "4xx", "stop before start"},
 		{"annexI_a", "testpic_2s/Manifest.mpd", "100000", "4xx", "pair without ="},
 		{"annexI_a=b", "testpic_2s/Manifest.mpd", "100000", "4xx", "query of the URL does not carry a=b"},
 		{"annexI_nowMS=100000", "testpic_2s/Manifest.mpd", "100000", "", ""},
